@@ -2,6 +2,7 @@ from __future__ import annotations
 
 import base64
 import hashlib
+import math
 import re
 from typing import Any, Optional
 
@@ -59,20 +60,31 @@ def str_to_num(s: str, fmt: str) -> Any[float, int]:
     num_match = _NUMBER_RE.match(s)
     if not num_match:
         try:
-            return float(s)
+            return _finite(float(s))
         except ValueError:
             raise ValueError("Cannot convert string to number")
 
     sign, wholes, minutes, seconds = num_match.groups()
     if minutes is None:
         if "." in s:
-            return float(s)
-        return int(s)
+            return _finite(float(s))
+        return _finite(int(s))
 
     value = float(wholes) + float(minutes) / 60
     if seconds is not None:
         value += float(seconds) / 3600
-    return -value if sign == "-" else value
+    return _finite(-value if sign == "-" else value)
+
+
+def _finite(value):
+    # number syntax does not bound the magnitude, but a value no float can hold
+    # cannot be stored, rendered or published
+    try:
+        if math.isfinite(float(value)):
+            return value
+    except OverflowError:
+        pass
+    raise ValueError("Number out of range")
 
 
 def num_to_str(n: Optional[float], fmt: str) -> Optional[str]:
